@@ -12,6 +12,7 @@
 PARTIAL: thread schedules finer than callback granularity in the pure-Python twin, free-threaded builds and allocator
 behaviour beyond the dict free list are not exhibited by the model."""
 import os
+import re
 import subprocess
 import sys
 import threading
@@ -67,6 +68,7 @@ def scenarios(tier):
                 L.append("descr %s %s" % (fl, ep))
             if ep in ("lookup", "lookup1", "queryAdapter", "adapter_hook", "queryMultiAdapter"):
                 L.append("midwalk %s %s" % (fl, ep))
+            L.append("shrink %s %s" % (fl, ep))
         L.append("pychanged %s lookup" % fl)
     return L
 
@@ -110,7 +112,9 @@ for Reg in (AdapterRegistry, VerifyingAdapterRegistry):
             errors.append("mutator: %s %s" % (type(e).__name__, e))
     ts = [threading.Thread(target=looker) for _ in range(3)] + [threading.Thread(target=mutator)]
     [t.start() for t in ts]; [t.join() for t in ts]
-print("STRESS-ERRORS" if errors else "STRESS-OK", errors[:3])
+import re
+kinds = sorted({re.sub(r" at 0x[0-9a-f]+", "", e) for e in errors})
+print("STRESS-ERRORS" if errors else "STRESS-OK", kinds[:10])
 '''
 
 
@@ -155,6 +159,19 @@ def check(tier):
         res = stress(20)
         chk.counters["thread_stress"] = res
         for m, r in res.items():
+            if r.startswith("rc=0 STRESS-ERRORS"):
+                import ast
+                try:
+                    kinds = ast.literal_eval(r[len("rc=0 STRESS-ERRORS"):].strip())
+                except Exception:  # noqa
+                    kinds = [r]
+                # the recorded finding: the per-specification dependents count corrupted by a lookup thread's _subscribe racing
+                # with changed() -> KeyError(<weakref to the lookup object>) out of Specification.unsubscribe
+                known_re = re.compile(r"^(lookup thread|mutator): KeyError <weakref; to '(Verifying)?AdapterLookup'>$")
+                if kinds and all(known_re.match(k) for k in kinds):
+                    chk.violation("known", dict(), sig="threads-dependents-count-keyerror")
+                    chk.counters["known_finding_thread_stress_%s" % m] = kinds
+                    continue
             if not r.startswith("rc=0 STRESS-OK"):
                 fails.append(dict(mode=m, script=["<thread stress: 3 lookup threads vs 1 mutator, switch interval 1us, 20 s per flavour>"],
                                   message="thread stress: %s" % r, observed=r))
@@ -177,7 +194,7 @@ def check(tier):
     chk.samples.extend(lines[:6])
     ev = chk.finish(len(lines) * 2, len(lines),
                     "translation: the ownership IR of 4 C functions and the fetch/callback/store IR of 3, plus the iteration mode of the Python loops in changed(), "
-                    "regenerated from the current sources and decided by Lean (8 generated obligations); runtime: 8 re-entrancy scenarios x 2 registry flavours x up to 7 "
+                    "regenerated from the current sources and decided by Lean (8 generated obligations); runtime: 9 re-entrancy scenarios x 2 registry flavours x up to 7 "
                     "entry points x 2 twins (stray write through a dangling cache pointer, stale answer after a mutation inside the uncached computation, mutation before "
                     "the computation, reference leaks on failing factories / unhashable provided, lazy `required`, mutating __providedBy__, re-entered changed()); "
                     "thorough adds a 4-thread stress per flavour and twin; distinct_nontrivial = scenarios",
